@@ -449,10 +449,11 @@ class BuiltinModelLoaderGen(ModelLoaderGen):
             else:
                 state.builder += "pass"
 
-        if state.parent_path not in state.type_checked_type_paths:
-            with state.builder(f"except {bad_type_error}:"):
-                self._gen_raise_bad_type_error(state, bad_type_load_error, namer=state.parent)
-            state.type_checked_type_paths.add(state.parent_path)
+        # a successful subscription with one key proves nothing about the next key:
+        # a mapping given for a sequence ({0: 1}) answers `data[0]` and raises KeyError for `data[1]`
+        with state.builder(f"except {bad_type_error}:"):
+            self._gen_raise_bad_type_error(state, bad_type_load_error, namer=state.parent)
+        state.type_checked_type_paths.add(state.parent_path)
 
         self._gen_unexpected_exc_catching(state)
 
